@@ -1,5 +1,5 @@
 """Seeded generators of well-formed chains and of simple layouts (used by the whole-program checks)."""
-import struct
+import struct, time as _time
 from . import chain as K
 from . import gen_scripts as GS
 
@@ -78,6 +78,11 @@ def gen_chain(r, coin, n, max_txs=4, max_io=3, segwit=True, odd_widths=True, aux
         cb_value = r.choice([subsidy(h), subsidy(h) + r.randrange(1, 10**7), max(0, subsidy(h) - r.randrange(0, 10**6)), 0])
         n_cb_out = r.randrange(1, max_io + 1)
         cb_outs = [(cb_value, (scripts or spk)(r, coin))] + [(r.randrange(10**9), (scripts or spk)(r, coin)) for _ in range(n_cb_out - 1)]
+        if r.random() < 0.25:
+            # the BIP141 witness commitment: an ordinary zero-value OP_RETURN output of the coinbase, on any coin, usually last, but any
+            # position is valid (the FIRST output is what the fee figure is defined on; the commitment is a line of `opreturn`)
+            wc = (0, b"\x6a\x24\xaa\x21\xa9\xed" + rb(r, 32) + (rb(r, r.randrange(0, 6)) if r.random() < 0.2 else b""))
+            cb_outs.insert(r.choice([len(cb_outs), len(cb_outs), len(cb_outs), 0, r.randrange(len(cb_outs) + 1)]), wc)
         cb = K.Tx([(b"\0" * 32, 0xffffffff, bytes([3, h & 255, (h >> 8) & 255, (h >> 16) & 255]) + rb(r, r.randrange(0, 20)), 0xffffffff)], cb_outs,
                   version=r.choice([1, 1, 2, r.randrange(1 << 32)]))
         if segwit and coin in ("bitcoin", "testnet3", "litecoin") and r.random() < 0.3:
@@ -120,6 +125,10 @@ def gen_chain(r, coin, n, max_txs=4, max_io=3, segwit=True, odd_widths=True, aux
             pool.add(tx.txid(), len(outs))
         t += r.choice([600, 1, 0, 7200, -300, 31])
         version = r.choice([1, 2, 4, 0x20000000, r.randrange(1 << 32)])
+        if r.random() < 0.2:
+            # versions shaped like those of merged-mined chains (chain id in the upper half, the AuxPoW flag 0x100, a base version),
+            # with the chain ids the supported coins use: on a coin without an AuxPoW threshold they are plain numbers
+            version = (r.choice(MM_CHAIN_IDS + [r.randrange(1 << 16)]) << 16) | r.choice([0x100, 0x101, 0x102, 0x104, 0x502, 0x002, 0x004]) | (0x20000000 if r.random() < 0.2 else 0)
         aux = None
         if coin in K.AUXPOW:
             th = K.AUXPOW[coin]
@@ -129,7 +138,11 @@ def gen_chain(r, coin, n, max_txs=4, max_io=3, segwit=True, odd_widths=True, aux
                 version = 1
             if version >= th:
                 aux = K.auxpow_section(r)
-        b = K.Block(txs, prev=prev, version=version, time=max(1, t) & 0xffffffff, bits=r.choice([0x1d00ffff, r.randrange(1 << 32)]), nonce=r.randrange(1 << 32), auxpow=aux)
+        bt = max(1, t) & 0xffffffff
+        if r.random() < 0.04:
+            # a header may carry any timestamp, also one that still lies ahead of the clock of the machine the parser runs on
+            bt = r.choice([0xffffffff, 0xfffffff0, 4102444800, int(_time.time()) + 3 * 3600, int(_time.time()) + 7300])
+        b = K.Block(txs, prev=prev, version=version, time=bt, bits=r.choice([0x1d00ffff, r.randrange(1 << 32)]), nonce=r.randrange(1 << 32), auxpow=aux)
         if odd_widths and r.random() < 0.1:
             b.w_txs = r.choice([3, 5, 9])
         blocks.append(b)
@@ -222,3 +235,31 @@ def literal_chain(r, coin, L, variant=0):
         b.merkle_root = None
         prev = b.hash()
     return blocks, first
+
+
+MM_CHAIN_IDS = [0x0001, 0x0062, 0x005a, 0x0008, 0x0014, 0x0020, 0x2000, 0x7fff]
+
+
+def xor_key(r, magic=None):
+    """contents of xor.dat: random keys of the lengths a node writes (8) and others, all-zero keys, and structured keys — zero
+    prefixes or suffixes with a non-zero rest, one non-zero byte, the bytes of the magic (the stored file then begins with zeros)"""
+    k = r.random()
+    n = r.choice([1, 2, 3, 7, 8, 8, 8, 9, 16, 31, 64, r.randrange(1, 65)])
+    if k < 0.12:
+        return bytes(n)
+    if k < 0.40:
+        n = r.choice([5, 8, 8, 9, 16, 64])
+        kind = r.randrange(5)
+        if kind == 0:
+            z = r.choice([1, 2, 3, 4, 4, 4, n - 1])
+            return bytes(z) + bytes(r.randrange(1, 256) for _ in range(n - z))
+        if kind == 1:
+            z = r.choice([1, 4, n - 1])
+            return bytes(r.randrange(1, 256) for _ in range(n - z)) + bytes(z)
+        if kind == 2:
+            i = r.randrange(n)
+            return bytes(i) + bytes([r.randrange(1, 256)]) + bytes(n - i - 1)
+        if kind == 3 and magic is not None:
+            return (magic + rb(r, n))[:max(4, n)]
+        return bytes([r.randrange(1, 256)]) * n
+    return rb(r, n)
